@@ -55,6 +55,7 @@ def _compute(tier, seed):
         raise MachineryError('binding control failed: %r' % (ctrl,))
     patterns = [(ep['name'], rr.pattern_case(i)) for i, ep in enumerate(E)]
     patterns.append(('within-call independence of chosen individuals', rr.within_call_independence()))
+    patterns.append(('unseeded sampling of copies of one error model', rr.unseeded_copies_independence()))
     return dict(runs=runs, refuted=ok, meta=meta, verdicts=verdicts, patterns=patterns, trace_run=vres.summary(),
                 samples=[dict(entry=meta[0][0], seed=meta[0][1], trace=traces[0]),
                          dict(entry=meta[-1][0], seed=meta[-1][1], trace=traces[-1][:12])],
